@@ -20,7 +20,7 @@ PARTIAL = ('proved (Properties/C09.v): the scheduling / symmetry core only -- fo
 ASSUMPTIONS = SR.ASSUMPTIONS
 RULE = ('exactness: complete manifolds (maximal bond dimensions of a charge sector, or no charges), L in 1..5, d in 2..3, Krylov dimension >= '
         'local dimension, real / imaginary / complex dt with |dt|*||H|| <= ~1, 1..3 steps, both integrators, against scipy.linalg.expm; '
-        'reversibility: single-site, any bond profile, complex dt, n steps forward then n steps with -dt, result times the norm reported by '
+        'real-valued and complex states (real states meet complex Hermitian MPOs, incl. XXZ with Dzyaloshinskii-Moriya-like complex hopping); reversibility: single-site, any bond profile, complex dt, n steps forward then n steps with -dt, result times the norm reported by '
         'the second call; non-trivial = L >= 2; distinct by input digest')
 IMPL_PARALLEL = True
 
@@ -30,7 +30,7 @@ def cases(rng, tier):
     out = []
     for k in range(n):
         what = rng.choice(['exact', 'exact', 'reverse'])
-        model = rng.choice(['xxz', 'xxz', 'ising', 'randherm', 'randherm_q', 'bose'])
+        model = rng.choice(['xxz', 'xxz', 'ising', 'randherm', 'randherm_q', 'bose', 'xxz_dm'])
         L = rng.choice([1, 2, 2, 3, 3, 4, 5])
         if model == 'bose':
             L = min(L, 3)
@@ -39,7 +39,8 @@ def cases(rng, tier):
             L = max(L, 2)
         out.append({'what': what, 'kind': kind, 'model': model, 'L': L, 'seed': rng.getrandbits(30),
                     'dt': [rng.choice([0.0, 0.05, -0.1, 0.2]), rng.choice([0.0, 0.1, -0.05, 0.3])], 'steps': rng.choice([1, 1, 2, 3]),
-                    'Dmax': rng.choice([1, 2, 3]), 'sectors': rng.random() < 0.7})
+                    'Dmax': rng.choice([1, 2, 3]), 'sectors': rng.random() < 0.7,
+                    'sdtype': 'real' if rng.random() < 0.35 else 'complex'})
     SR.mark_replay(out, {'quick': 24, 'thorough': 120, 'search': 0}[tier], 'steps')
     return out
 
@@ -71,7 +72,7 @@ def impl(case):
     try:
         if case['what'] == 'exact':
             info = {}
-            psi = T.state(H, rs, complete=True, sectors=case['sectors'], info=info, qt=case.get('qt'))
+            psi = T.state(H, rs, complete=True, sectors=case['sectors'], info=info, qt=case.get('qt'), dtype=case.get('sdtype', 'complex'))
             v0 = G.mps_dense(psi.A)
             n0 = float(np.linalg.norm(v0))
             if n0 < 1e-10:
@@ -88,7 +89,7 @@ def impl(case):
             return {'err': float(np.linalg.norm(v1 - ref)), 'ret': float(np.real(ret)), 'norm0': n0, 'dims': [int(x) for x in psi.bond_dims],
                     'refnorm': float(np.linalg.norm(ref)), 'mixed': [bool(x) for x in info.get('mixed', [])],
                     'runs': [run], 'H': SR.enc_mpo(H, numeric)}
-        psi = T.state(H, rs, Dmax=case['Dmax'])
+        psi = T.state(H, rs, Dmax=case['Dmax'], dtype=case.get('sdtype', 'complex'))
         v0 = G.mps_dense(psi.A)
         n0 = float(np.linalg.norm(v0))
         if n0 < 1e-10:
@@ -150,7 +151,8 @@ def klass(case, r):
     if 'skip' in r or 'error' in r:
         return case['what'] + '/' + ('skip' if 'skip' in r else 'error')
     dtk = 'imag' if case['dt'][0] == 0 else ('real' if case['dt'][1] == 0 else 'complex')
-    return '%s/%s/%s/L%d/%s%s' % (case['what'], case['kind'], case['model'], case['L'], dtk, '/replay' if r['runs'][0]['numeric'] else '')
+    return '%s/%s/%s/L%d/%s%s%s' % (case['what'], case['kind'], case['model'], case['L'], dtk, '/real' if case.get('sdtype') == 'real' else '',
+                                    '/replay' if r['runs'][0]['numeric'] else '')
 
 
 def nontrivial(case, r):
